@@ -54,6 +54,9 @@ CHECKS = {
  "C03": ("bounded symbolic execution of match construction, canonical_string, pointer derivation and re-compilation of the reported path for every match on a symbolic document",
          "For every match of a catalogue query: the path matches the RFC 9535 2.7 normalized-path grammar, evaluating it returns exactly that node (identity), parts / pointer / pointer text resolve to it, the parent is one step shorter, paths equal iff nodes equal; member-name text (quotes, backslash, controls, '/', '~', non-BMP) by enumeration over a 35-name pool.",
          "member names concrete; name text is enumeration (json.dumps and the lexer are C boundaries)"),
+ "C13": ("bounded symbolic execution of each extension spelling next to its standard spelling / documented reference on symbolic documents and filter contexts",
+         "66 pairs covering implicit root and bare names, keys selector, fake root, current key, filter context at depth 1-2, in/contains, =~ with each flag, <>, and/or/not, undefined/missing, nil/none/capitalised literals - in lists, after descendant segments and in nested filters - evaluate identically (values, order, locations) on spines with symbolic leaves.",
+         "extension query text is a concrete catalogue; regex subjects pooled"),
 }
 NA = {
  "C18": "process-level I/O (argparse FileType, stdin/stdout, exit status, stderr text): CrossHair's audit wall blocks file access, file contents pass through C json, and what remains is a finite option table whose exploration would be enumeration of concrete runs - no role for a solver",
